@@ -85,6 +85,9 @@ type Script struct {
 	TCP     bool
 	Nq0     uint16
 	Actions []Action
+	// SlowClose: the socket's Close takes a few milliseconds (a TLS close_notify flush): everybody woken by the
+	// close runs before it returns. Not part of the model: a close is one step there.
+	SlowClose bool
 }
 
 type Final struct {
@@ -188,6 +191,7 @@ type fakeConn struct {
 	closed   bool
 	errWithData bool // deliver readErr together with the bytes that empty the buffer
 	idleRead int // number of times Read was entered with nothing to deliver
+	slowClose  bool
 	holdRead   bool          // park the Read that takes the last byte of the buffer before it returns
 	readRel    chan struct{} // released by the executor
 	readParked chan struct{}
@@ -328,12 +332,17 @@ func (f *fakeConn) Write(p []byte) (int, error) {
 
 func (f *fakeConn) Close() error {
 	f.mu.Lock()
-	if !f.closed {
+	first := !f.closed
+	if first {
 		f.closed = true
 		close(f.closeCh)
 		f.cond.Broadcast()
 	}
+	slow := f.slowClose
 	f.mu.Unlock()
+	if first && slow {
+		time.Sleep(4 * time.Millisecond)
+	}
 	return nil
 }
 
@@ -574,6 +583,7 @@ func Run(s Script, next func(v *View) *Action) (Script, []Obs, Final) {
 	s.Actions = nil
 
 	fc := newFakeConn(s.TCP)
+	fc.slowClose = s.SlowClose
 	dc := transport.NewDnsConn(transport.TraditionalDnsConnOpts{
 		WithLengthHeader:   s.TCP,
 		MaxConcurrentQuery: s.MaxCq,
